@@ -39,14 +39,14 @@ func init() {
 		Gen:        func(r *Rand, idx int, tier string) Case { return prefetched("C20", idx, tier, false) },
 		Corpus:     func() []Case { return corpus(false) },
 		NonTrivial: nonTrivial,
-		ShardSize:  25,
+		ShardSize:  40,
 	}
 	Props["C20ov"] = &Prop{
 		Imports:    "From Verif Require Import Model.PoolLTS Corr.C20.",
 		Gen:        func(r *Rand, idx int, tier string) Case { return prefetched("C20ov", idx, tier, true) },
 		Corpus:     func() []Case { return corpus(true) },
 		NonTrivial: nonTrivial,
-		ShardSize:  25,
+		ShardSize:  40,
 	}
 }
 
@@ -448,8 +448,8 @@ func (r *run) note(e rawEv) {
 	case evStart:
 		r.started[e.t] = true
 		r.add(fmt.Sprintf("EStart %d %d", e.t, e.val), fmt.Sprintf("start(%d|%d running)", e.t, e.val))
-		if e.val > r.tags["peak"] {
-			r.tags["peak"] = e.val
+		if e.val > r.tags["peak_sum"] { // per case: the largest number of bodies executing at once (summed over cases in the stats)
+			r.tags["peak_sum"] = e.val
 		}
 		r.tags["executions"]++
 	case evLeaving:
@@ -748,8 +748,15 @@ func enact(sc schedule, idx int, tier string) Case {
 		}
 	}
 	go r.pool.Stop()
-	go func() {
-		for range r.evc {
+	go func() { // swallow late signals for a while, then let the case be collected (evc is buffered)
+		idle := time.NewTimer(3 * time.Second)
+		defer idle.Stop()
+		for {
+			select {
+			case <-r.evc:
+			case <-idle.C:
+				return
+			}
 		}
 	}()
 	var sl []string
